@@ -90,6 +90,17 @@ func FindGrouping(n Node, name string, seen map[string]bool) *Grouping {
 				}
 			}
 		}
+		// A submodule also has access to the groupings of the module it
+		// belongs to and of all the submodules of that module.
+		if m, ok := n.(*Module); ok && m.BelongsTo != nil && m.Modules != nil && !strings.Contains(name, ":") {
+			seen[m.Name] = true
+			if bm := m.Modules.Modules[m.BelongsTo.Name]; bm != nil && !seen[bm.Name] {
+				seen[bm.Name] = true
+				if g := FindGrouping(bm, name, seen); g != nil {
+					return g
+				}
+			}
+		}
 		n = n.ParentNode()
 	}
 	return nil
